@@ -36,8 +36,8 @@ ASSUMPTIONS = ['callbacks return normally', 'registry entries are independent sy
 class EvInterp(proto.Interp):
     PURE = ('get', 'getattr')
 
-    def __init__(self, repo, cls):
-        super().__init__(repo, unroll=2, inline_depth=3)
+    def __init__(self, repo, cls, unroll=2):
+        super().__init__(repo, unroll=unroll, inline_depth=3)
         self.cls = cls
 
     def on_fork(self, key, st):
@@ -236,9 +236,10 @@ def walk_emit(ctx, cls, layout):
     # ---- P3..P6
     problems = {}
     total = 0
-    for k in (0, 1, 2):
+    kmax = ctx.bound(2, 3)
+    for k in range(kmax + 1):
         entries = [entry_term(i, layout) for i in range(k)]
-        I = EvInterp(repo, cls)
+        I = EvInterp(repo, cls, unroll=kmax)
         outs = I.run(fi, env={selfp: me}, heap={(me, '_callbacks'): T('list', *entries), (me, 'is_silent'): C(False)})
         ctx.analysed['paths'] += len(outs)
         total += len(outs)
@@ -316,9 +317,9 @@ def walk_emit(ctx, cls, layout):
         for msg in list(problems)[:4]:
             ctx.violated('C19.P3', fi, msg[:160], msg)
     else:
-        ctx.holds('C19.P3', fi, 'over registries of 0..2 symbolic entries (%d paths, every completion of unconsulted facts): call sequence == '
+        ctx.holds('C19.P3', fi, 'over registries of 0..%d symbolic entries (%d paths, every completion of unconsulted facts): call sequence == '
                   'matching non-last entries then matching last entries, in registration order; match == same event and (no sender filter or '
-                  'same sender); arguments (sender, *args, **kwargs - single); results in call order; single -> first result after one call' % total, 'emit')
+                  'same sender); arguments (sender, *args, **kwargs - single); results in call order; single -> first result after one call' % (kmax, total), 'emit')
 
 
 class SilentInterp(EvInterp):
